@@ -5,14 +5,28 @@
 //! bytes, Interrupted, other error kind, Ok(0)} and is logged. The oracle is a
 //! function of that log: destination content = bytes the stream delivered
 //! (Vec reference), pre-existing content preserved, consumed = reported,
-//! documented error kinds, no panic from compio, bounded number of calls.
+//! documented error kinds, no panic from compio, bounded number of calls
+//! (the streams are always ready, so an endless loop never returns to the
+//! executor: the bound sits in the stream and raises a recognisable panic).
+//!
+//! Files: `c11_read.rs` (read_exact, append, read_to_end/_string,
+//! read_vectored_exact, BufReader, Take, split, `_at` variants),
+//! `c11_write.rs` (write_all, write_vectored_all, `_at`, BufWriter, copy),
+//! `c11_mem.rs` (compio-io's own `&[u8]`/`Vec`/`[u8]`/`Cursor` readers and
+//! writers against the slice/Vec model, positions beyond the end).
 //!
 //! Enumeration: payload length n <= bound, every composition of n into chunk
 //! sizes x every single position of an injected Interrupted / other error /
 //! early Ok(0) x destination capacities / start positions / member layouts
 //! (an odometer over all choice sequences, sharded by index). On top: seeded
-//! samples of the same space and seeded large scripts (n <= 4096, several
-//! faults).
+//! samples of the same space (`--sample`, what the Miri leg runs) and seeded
+//! large scripts (`--iters`, n <= 4096, several faults).
+//!
+//! Violation signature: `C11/<rule>/<helper>/<fault>[+tag..]`. A failing case
+//! is first reduced (`minimise`): without pre-existing content if that is not
+//! needed, and `<fault>` is the weakest fault class under which the rule still
+//! fails (`any` = also without faults, else `intr` / `err` / `eof` / `multi`).
+//! The reduced case is the replay program (`Case` as JSON).
 
 #[path = "c11_streams.rs"]
 mod streams;
@@ -218,9 +232,7 @@ fn fault_class(scripts: &[&[Step]], with_pos: bool) -> String {
 // Checker context and oracles
 // ---------------------------------------------------------------------------
 
-pub struct Ck<'a> {
-    pub c: &'a Case,
-    pub h: &'static str,
+pub struct Ck {
     pub tags: Vec<&'static str>,
     /// Variants of the same API use (coverage only, not part of a violation's condition).
     pub variants: Vec<&'static str>,
@@ -245,7 +257,7 @@ pub fn terminal(log: &[Ev]) -> Option<(usize, Ev)> {
         .find(|(_, e)| matches!(e, Ev::Err(_) | Ev::Zero))
 }
 
-impl<'a> Ck<'a> {
+impl Ck {
     pub fn tag(&mut self, t: &'static str) {
         if !self.tags.contains(&t) {
             self.tags.push(t);
@@ -439,7 +451,7 @@ impl<'a> Ck<'a> {
 }
 
 /// Run an always-ready future; `None` (and a violation) if it stays pending.
-pub fn exec<F: Future>(ck: &mut Ck<'_>, f: F) -> Option<F::Output> {
+pub fn exec<F: Future>(ck: &mut Ck, f: F) -> Option<F::Output> {
     match block_on_bounded(f, 16) {
         Ok(v) => Some(v),
         Err(n) => {
@@ -476,7 +488,7 @@ pub struct Helper {
     /// 0: no script, 1: one script, 3: two scripts (one of them enumerated).
     pub scripts: u8,
     pub params: fn(&mut dyn Chooser, &mut Case),
-    pub run: fn(&Case, &mut Ck<'_>),
+    pub run: fn(&Case, &mut Ck),
 }
 
 fn helpers() -> Vec<Helper> {
@@ -626,8 +638,6 @@ struct Exec {
 
 fn execute(c: &Case, h: &Helper) -> Exec {
     let mut ck = Ck {
-        c,
-        h: h.name,
         tags: Vec::new(),
         variants: Vec::new(),
         fails: Vec::new(),
@@ -843,9 +853,12 @@ pub fn main(args: &Args) {
         return;
     }
 
-    // --- exhaustive part: every case inside the bound, sharded by index
+    // --- exhaustive part: every case inside the bound, sharded by index.
+    // It has its own, generous wall cap (default 6 x --budget-ms) so that a
+    // loaded machine shortens the random part first.
     let ex_n = args.usize("ex-n", if args.thorough() { 9 } else { 7 });
     if args.usize("ex", 1) != 0 {
+        let ex_budget = args.u64("ex-budget-ms", 6 * args.u64("budget-ms", 0));
         let mut od = Odometer::new();
         let mut idx: u64 = 0;
         let mut complete = true;
@@ -855,7 +868,7 @@ pub fn main(args: &Args) {
                 run_case(&c, &hs, &mut rep, "exhaustive");
             }
             idx += 1;
-            if idx % 4096 == 0 && rep.out_of_time() {
+            if idx % 4096 == 0 && ex_budget > 0 && rep.elapsed().as_millis() as u64 >= ex_budget {
                 complete = false;
                 break;
             }
@@ -866,25 +879,33 @@ pub fn main(args: &Args) {
     }
 
     let base = Rng::new(args.seed()).fork(shard + 1);
+    // a small random quota runs even if the wall budget is already used up
+    let floor_quota = args.usize("min-random", 2000);
     // --- seeded sample of the enumerated space (what the Miri leg runs)
     let sample_n = args.usize("sample-n", ex_n);
+    let mut done = 0i64;
     for i in 0..args.usize("sample", 0) {
-        if rep.out_of_time() {
+        if i >= floor_quota && i % 64 == 0 && rep.out_of_time() {
             break;
         }
         let mut ch = RandomChooser::new(base.fork(0x5a00_0000 + i as u64));
         let c = gen_case(&mut ch, &hs, &hmask, sample_n);
         run_case(&c, &hs, &mut rep, "sample");
+        done += 1;
     }
+    rep.count("sample_cases", done);
     // --- seeded large scripts
     let rnd_n = args.usize("rnd-n", 4096);
+    done = 0;
     for i in 0..args.iters(20_000, 400_000) {
-        if i % 64 == 0 && rep.out_of_time() {
+        if i >= floor_quota && i % 64 == 0 && rep.out_of_time() {
             break;
         }
         let mut rng = base.fork(i as u64);
         let c = gen_big(&mut rng, &hs, &hmask, rnd_n);
         run_case(&c, &hs, &mut rep, "big");
+        done += 1;
     }
+    rep.count("big_cases", done);
     rep.finish();
 }
